@@ -353,7 +353,7 @@ PROPS['C02'] = {
 }
 PROPS['C12'] = {
     'modules': ['IpcModel.Props.C12'],
-    'theorems': ['C12.C12_intact', 'C12.C12_no_wait_on_dead', 'C12.C12_truncated_not_closed'] + IM_THEOREMS,
+    'theorems': ['C12.C12_intact', 'C12.C12_no_wait_on_dead', 'C12.C12_truncated_not_closed', 'C12.C12_own_attachments'] + IM_THEOREMS,
     'scenarios': sched_scen(480, 12000),
     'search': search_sched,
     'rule': PROPS['C02']['rule'] + '; for C12 the injected fatal errors (x) abort a send at every packet position with other senders surviving',
